@@ -80,8 +80,8 @@ def sicnm(ae: nAE,
     tspan = np.array([0, 10000])
     tend = tspan[-1]
     t0 = tspan[0]
-    if opt.hmax is None:
-        opt.hmax = np.abs(tend - t0)
+    hmax = np.abs(tend - t0) if opt.hmax is None else opt.hmax
+    facmax = opt.facmax
     nt = 0
     t = t0
     hmin = 16 * np.spacing(t0)
@@ -120,7 +120,7 @@ def sicnm(ae: nAE,
         dt = opt.hinit
 
     dt = np.maximum(dt, hmin)
-    dt = np.minimum(dt, opt.hmax)
+    dt = np.minimum(dt, hmax)
 
     ZERO = None
     EYE = speye(vsize, format='csc')
@@ -233,7 +233,7 @@ def sicnm(ae: nAE,
             print('Warning Rodas: NaN or Inf occurs.')
         err = np.maximum(err, 1.0e-6)
         fac = opt.f_savety / (err ** (1 / rparam.pord))
-        fac = np.minimum(opt.facmax, np.maximum(opt.fac1, fac))
+        fac = np.minimum(facmax, np.maximum(opt.fac1, fac))
         dtnew = dt * fac
 
         if err <= 1.0:
@@ -346,13 +346,13 @@ def sicnm(ae: nAE,
 
             y0 = ynew
             v0 = vnew
-            opt.facmax = opt.fac2
+            facmax = opt.fac2
 
         else:
             reject = reject + 1
             stats.nreject = stats.nreject + 1
-            opt.facmax = 1
-        dt = np.min([opt.hmax, np.max([hmin, dtnew])])
+            facmax = 1
+        dt = np.min([hmax, np.max([hmin, dtnew])])
 
     T = T[0:nt + 1]
     y = y[0:nt + 1]
